@@ -42,7 +42,25 @@ def concretise(job, unit, res, workdir, log):
         # lowered text without contracts; real callee bodies are used where they exist
         # ghost-return instrumentation must stay (postconditions mention the ghosts)
         gspecs = {k: {kk: vv for kk, vv in v.items() if kk in ('ghost_returns',)} for k, v in job.get('specs', {}).items()}
-        text, lw = R.lowered_text(ast, job['roots'], gspecs, cuts=job.get('cuts', ()), line_directives=False, drop_contracts=True)
+        # mutual recursion: the function under test and its direct callees keep their real bodies; calls made by those callees
+        # back into the recursive group go to contract stubs (spec key cex_stub), which keeps the bounded search small.
+        # Whatever input is found is replayed on the real code, which alone decides.
+        rec = [h for h in job.get('cex_recursive', ())]
+        rename = {g: {h: h + '_cexstub' for h in rec} for g in rec if g != fn} if rec else None
+        text, lw = R.lowered_text(ast, job['roots'], gspecs, cuts=job.get('cuts', ()), line_directives=False, drop_contracts=True, cut_qual=job.get('cut_qual', ()),
+                                  call_rename=rename)
+        fwd = ''
+        for h in rec:
+            if h in lw.fn_info and job['specs'].get(h, {}).get('cex_stub'):
+                pr = lw.proto(lw.fn_info[h]['node']).replace(h + '(', h + '_cexstub(', 1)
+                fwd += pr + ';\n'
+                text += '\n' + pr + '\n{\n' + job['specs'][h]['cex_stub'] + '\n}\n'
+            elif rec:
+                out['note'] = 'no cex_stub for recursive callee %s' % h
+                return out
+        if fwd:
+            head_, mark_, rest_ = text.partition('/* ---- end types ---- */')
+            text = head_ + mark_ + '\n' + fwd + rest_
         ghosts = job.get('ghosts', [])
         K = job.get('cex_K', 6)
         spec_fn = job['specs'][fn]
@@ -81,6 +99,7 @@ def concretise(job, unit, res, workdir, log):
         found = {}
         import threading
         stop = threading.Event()
+        nhits = [0]
 
         def attempt(ix_fixed):
             ix, fixed = ix_fixed
@@ -106,22 +125,44 @@ def concretise(job, unit, res, workdir, log):
             prop, desc, vals = RP.trace_inputs(o, set(n for n, t in hg.inputs))
             if prop is None:
                 return None
-            stop.set()
+            nhits[0] += 1
+            if nhits[0] >= 4:
+                stop.set()
             return ('cex', (prop, desc, vals, hg, htext))
         from concurrent.futures import ThreadPoolExecutor
         errs = []
-        hit = None
+        hits = []
         with ThreadPoolExecutor(max_workers=12) as ex:
             for r_ in ex.map(attempt, list(enumerate(combos))):
                 if r_ is None:
                     continue
-                if r_[0] == 'cex' and hit is None:
-                    hit = r_[1]
+                if r_[0] == 'cex':
+                    hits.append(r_[1])
                 elif r_[0] == 'error':
                     errs.append(r_[1])
-        if hit is None:
+        if not hits:
             out['note'] = ('bounded concretisation (K=%d, %d length combinations) found no failing input' % (K, len(combos))) + (('; errors: ' + errs[0]) if errs else '')
             return out
+        # several candidate inputs (smallest first): the first one that reproduces on the real code is reported
+        first = None
+        for hi, hit in enumerate(hits[:4]):
+            o_ = _replay_hit(job, unit, hit, dict(out), jd, lw, ast, fn, stub_fns, gtext, text, stubs)
+            if first is None:
+                first = o_
+            if o_.get('reproduced'):
+                return o_
+        return first
+    except (R.Undecided, LowerError) as e:
+        out['note'] = 'concretisation aborted: ' + str(e)
+        return out
+    except Exception as e:
+        out['note'] = 'concretisation crashed: ' + repr(e) + traceback.format_exc()[-600:]
+        return out
+
+
+def _replay_hit(job, unit, hit, out, jd, lw, ast, fn, stub_fns, gtext, text, stubs):
+    """native replay of one concretised input against the real headers"""
+    try:
         prop, desc, vals, hg, htext = hit
         out['cex_property'] = prop
         out['cex_description'] = desc
@@ -187,7 +228,7 @@ def validate_lowering(job, unit, workdir, seed, iters=20000):
     try:
         ast = R.get_ast(workdir, unit['driver'], unit.get('defines', ()), unit.get('cflags', ()))
         gspecs = {k: {kk: vv for kk, vv in v.items() if kk in ('ghost_returns',)} for k, v in job.get('specs', {}).items()}
-        text, lw = R.lowered_text(ast, job['roots'], gspecs, cuts=job.get('cuts', ()), line_directives=False, drop_contracts=True)
+        text, lw = R.lowered_text(ast, job['roots'], gspecs, cuts=job.get('cuts', ()), line_directives=False, drop_contracts=True, cut_qual=job.get('cut_qual', ()))
         if fn not in lw.fn_info or not lw.fn_info[fn]['has_body']:
             out['note'] = 'no body'
             return out
@@ -207,8 +248,14 @@ def validate_lowering(job, unit, workdir, seed, iters=20000):
         htext = hg.build()
         stubs = ''
         stub_fns = []
+        real_fns = []
         for cn, inf in lw.fn_info.items():
             if not inf['has_body']:
+                if not inf['qualname'].startswith('QV::') and ast.fn_def.get(inf['mangled']) is not None and job.get('cut_qual'):
+                    # object code behind a contract (cut by qualified name): the lowered caller runs the REAL callee natively,
+                    # so that the comparison is about the caller's translation and not about the stub
+                    real_fns.append(cn)
+                    continue
                 body = job.get('specs', {}).get(cn, {}).get('stub_body')
                 if body is None:
                     out['note'] = 'no stub body for cut callee %s' % cn
@@ -224,7 +271,7 @@ def validate_lowering(job, unit, workdir, seed, iters=20000):
             f.write(RP.VALIDATE_PRE + gtext + job.get('native_pre', job.get('pre', '')) + '\n' + text + '\n' + job.get('extra', '') + '\n' + stubs + '\n' + htext +
                     '\nint main(void) { qx_state ^= %dULL * 2654435761ULL; for (long i = 0; i < %d; i++) qx_harness();\n'
                     '  printf("QX-VALIDATED done=%%lu skipped=%%lu mismatches=%%lu\\n", qx_done, qx_skipped, qx_mism); return qx_mism ? 1 : 0; }\n' % (seed + 1, iters))
-        wcpp = RP.wrapper_cpp(lw, os.path.join(VERIF, 'inst', unit['driver'].replace('.cpp', '.hpp')), [fn], stub_fns, ast=ast)
+        wcpp = RP.wrapper_cpp(lw, os.path.join(VERIF, 'inst', unit['driver'].replace('.cpp', '.hpp')), [fn], stub_fns, ast=ast, real_fns=real_fns)
         wfile = os.path.join(jd, 'wrapper.cpp')
         with open(wfile, 'w') as f:
             f.write(wcpp)
